@@ -59,72 +59,101 @@ def _compile_file(path, syntax_only):
     return p.returncode, errs
 
 
-def compile_texts(ctx, texts, tag, batch=120):
+def compile_texts(ctx, texts, tag, predicted=None, batch=150):
     """texts: list of written subroutines (each named `sub`).  Returns list of (accepted, message).
-    Subroutines are renamed and compiled many per file; files are recompiled without the rejected
-    units until a file compiles cleanly, so every unit reported accepted was part of an error-free
-    compilation (gfortran skips later passes once an error was seen)."""
+
+    Units are renamed and compiled many per file (one f951 process costs about as much as twenty
+    units).  gfortran skips its later passes once any error was seen and a parse error can spill
+    into the next unit, so: only errors located at or after a unit's first directive line count
+    (a unit with an earlier error is a spill-over victim and is compiled again), units without an
+    error in a file that had errors are compiled again, and a unit is accepted only as part of a
+    file that compiled without any error.  `predicted` (same length, bool = the specification
+    expects acceptance) only groups the units so that the expected-clean ones share a file."""
     d = ctx.scratch / ("gf_" + tag)
     d.mkdir(parents=True, exist_ok=True)
     uniq = {}
-    for t in texts:
-        uniq.setdefault(t, None)
+    for k, t in enumerate(texts):
+        uniq.setdefault(t, predicted[k] if predicted else True)
     keys = list(uniq)
     verdict = {}
+    stats = {"processes": 0}
 
     def unit(k, i):
         t = re.sub(r"(?im)^(\s*(?:end\s+)?subroutine\s+)sub\b", lambda m: m.group(1) + "sub_%d" % i, k)
         return t if t.endswith("\n") else t + "\n"
 
+    def first_directive_line(u):
+        for n, line in enumerate(u.split("\n")):
+            if line.lstrip().startswith("!$"):
+                return n
+        return 10 ** 9
+
     def work(chunk_id, idxs):
         alive = list(idxs)
         rnd = 0
+        victim_count = {}
         while alive:
             rnd += 1
-            lines_of = []
-            body = []
-            pos = 1
+            if rnd > 15:
+                raise RuntimeError("gfortran batches do not converge in %s" % d)
+            lines_of, body, pos = [], [], 1
             for i in alive:
                 u = unit(keys[i], i)
                 n = u.count("\n")
-                lines_of.append((pos, pos + n - 1, i))
+                lines_of.append((pos, pos + n - 1, i, pos + first_directive_line(u)))
                 body.append(u)
                 pos += n
             f = d / ("b%d_%d.f90" % (chunk_id, rnd))
             f.write_text("".join(body))
-            bad = {}
-            for syntax_only in (True, False):
-                res = _compile_file(f, syntax_only)
-                if res is None:
-                    raise RuntimeError("gfortran timed out on %s" % f)
-                rc, errs = res
-                for ln, msg in errs:
-                    owner = None
-                    if ln is not None:
-                        for a, b, i in lines_of:
-                            if a <= ln <= b:
-                                owner = i
-                                break
-                    if owner is None:
-                        raise RuntimeError("cannot attribute gfortran error %r (line %r) in %s" % (msg, ln, f))
-                    bad.setdefault(owner, msg)
-                if rc != 0 and not errs:
-                    raise RuntimeError("gfortran failed without a parsable error on %s" % f)
-                if bad:
-                    break
-            for i, msg in bad.items():
-                verdict[i] = (False, msg)
-            if not bad:
+            res = _compile_file(f, False)
+            stats["processes"] += 1
+            if res is None:
+                raise RuntimeError("gfortran timed out on %s" % f)
+            rc, errs = res
+            if rc != 0 and not errs:
+                raise RuntimeError("gfortran failed without a parsable error on %s" % f)
+            if not errs:
                 for i in alive:
                     verdict[i] = (True, "")
                 return
+            bad, victims = {}, set()
+            for ln, msg in errs:
+                owner = None
+                if ln is not None:
+                    for a, b, i, fd in lines_of:
+                        if a <= ln <= b:
+                            owner = (i, fd)
+                            break
+                if owner is None:
+                    raise RuntimeError("cannot attribute gfortran error %r (line %r) in %s" % (msg, ln, f))
+                if ln < owner[1]:
+                    victims.add(owner[0])
+                else:
+                    bad.setdefault(owner[0], msg)
+            for i in victims:
+                bad.pop(i, None)
+                victim_count[i] = victim_count.get(i, 0) + 1
+                if victim_count[i] >= 2:
+                    # not a spill-over: judge this unit on its own
+                    g = d / ("u%d.f90" % i)
+                    g.write_text(unit(keys[i], i))
+                    r1 = _compile_file(g, False)
+                    stats["processes"] += 1
+                    if r1 is None or (r1[0] != 0 and not r1[1]):
+                        raise RuntimeError("gfortran failed on %s" % g)
+                    bad[i] = r1[1][0][1] if r1[0] != 0 else None
+            for i, msg in bad.items():
+                verdict[i] = (False, msg) if msg is not None else (True, "")
+            if not bad:
+                raise RuntimeError("gfortran reported only spill-over errors in %s" % f)
             alive = [i for i in alive if i not in bad]
-            if rnd > 12:
-                raise RuntimeError("gfortran batches do not converge in %s" % d)
 
-    chunks = [list(range(k, min(k + batch, len(keys)))) for k in range(0, len(keys), batch)]
-    with ThreadPoolExecutor(max_workers=max(2, min(8, core.NCPU // 2))) as ex:
+    good = [i for i, k in enumerate(keys) if uniq[k]]
+    rest = [i for i, k in enumerate(keys) if not uniq[k]]
+    chunks = [good[k:k + batch] for k in range(0, len(good), batch)] + [rest[k:k + batch] for k in range(0, len(rest), batch)]
+    with ThreadPoolExecutor(max_workers=max(2, min(6, core.NCPU // 2))) as ex:
         list(ex.map(lambda a: work(*a), enumerate(chunks)))
+    ctx.notes["gfortran_processes"] = ctx.notes.get("gfortran_processes", 0) + stats["processes"]
     index = {k: i for i, k in enumerate(keys)}
     return [verdict[index[t]] for t in texts]
 
@@ -313,14 +342,15 @@ def run(ctx):
 
     # ---- 4. gfortran on everything written
     written = [f for f in finals if f["wv"] == "ok"]
-    verdicts = compile_texts(ctx, [f["text"] for f in written] + [u["text"] for u in unchecked], "main")
+    verdicts = compile_texts(ctx, [f["text"] for f in written] + [u["text"] for u in unchecked], "main",
+                             predicted=[not spec.cc_viol(x["tree"]) for x in written + unchecked])
     for f, v in zip(written, verdicts[:len(written)]):
         f["gf"] = v
     for u, v in zip(unchecked, verdicts[len(written):]):
         u["gf"] = v
     # cross-check of the batching on a sample compiled one by one
     srng = ctx.rng("single")
-    sample = srng.sample(written + unchecked, min(len(written) + len(unchecked), ctx.pick(6, 40)))
+    sample = srng.sample(written + unchecked, min(len(written) + len(unchecked), ctx.pick(4, 40)))
     for s in sample:
         acc, msg = impl.gfortran(s["text"], str(ctx.scratch / "single"), hashlib.sha1(s["text"].encode()).hexdigest()[:10])
         if acc is not None and acc != s["gf"][0]:
